@@ -198,6 +198,15 @@ func (b *Balloon) RefreshVersion() error {
 	return nil
 }
 
+// RebuildCache function rebuilds the in-memory cache of the hyper tree from the
+// store. It has to be called whenever the store is modified by something else than
+// the mutations returned by this balloon (i.e. after loading a snapshot).
+func (b *Balloon) RebuildCache() {
+	b.Lock()
+	defer b.Unlock()
+	b.hyperTree.RebuildCache()
+}
+
 // Add funcion inserts an event hash into the history and hyper trees, creates a snapshot
 // with these insertions results, and returns the snapshot along with certain mutations to
 // do to the persistent storage.
